@@ -173,6 +173,19 @@ CLAIMED["C17"] = _e(
     "custom IID managers are documented misuse, out of scope.",
     "DESIGN.md §3 C17",
 )
+CLAIMED["C18"] = _e(
+    "Lean 4 proof: config number range and change-iff over every op history, value-free rendering invariant under value "
+    "operations, sf exactness, advertisement-after-response over all traces of a response-processing event model (incl. "
+    "session teardown), xhm payload round trip, validity of both mDNS labels for every display name; differential "
+    "correspondence (names, TXT record, config number, setup payload, event scripts on real protocol objects) with "
+    "independent label validator and payload decoder",
+    "Kernel-checked for every history, configuration number, display name, category and setup code; ~6700 cases per "
+    "quick run incl. every short name over a 5-symbol alphabet, restart pairs and pairing scripts with a recording advertiser.",
+    "Python re.sub/strip on the three fixed patterns are hand-modelled (pattern strings compared with the source by "
+    "AST); SHA-512 is an arbitrary/injective function in the theorems; pair-setup M5 in ordering scripts uses crafted "
+    "responses through the real _process_response.",
+    "DESIGN.md §3 C18",
+)
 
 NOT_YET = "not yet built in this round (model + theorems + correspondence pending; see DESIGN.md §7 build order)"
 NA = {}
